@@ -139,12 +139,33 @@ def run(ctx, res):
                 'poms': [{'preds': [tmx('const', EXN + 'p/n')], 'objs': [{'m': tmx('ref', 'n'), 'lang': None, 'dt': None, 'joins': []}], 'graphs': []},
                          {'preds': [tmx('const', EXN + 'p/m')], 'objs': [{'m': tmx('templ', EXN + 'o/{m}'), 'lang': None, 'dt': None, 'joins': []}], 'graphs': []}]}]
         cases.append({'cfg': {'nquads': False, 'mode': 'NO', 'na': ctx.rng.choice([['-999'], ['-999', '7'], ['0', '42', ''], ['10']]), 'safe': '', 'printable': False}, 'sources': [src], 'doc': doc})
+    # only_printable_chars applies to the results of function-valued term maps too
+    from .c14 import gen_fn_case
+    for _ in range(ctx.scale(24, 150)):
+        c = gen_fn_case(ctx.rng)
+        c['cfg']['printable'] = True
+        for r_ in c['sources'][0]['rows']:
+            for i_ in range(1, len(r_)):
+                if r_[i_] is not None and ctx.rng.random() < 0.85:
+                    r_[i_] = ctx.rng.choice(['be\x07ll', 'zero\u200bwidth', 'a\x1fb', 'B\x7fc,d'])
+        cases.append(c)
     for rec in batch.run(cases):
         family.judge(res, rec, known)
     # file named by the mapping vs by the file_path option
     fp_cases = [c for c in cases if len(c['sources']) == 1][:ctx.scale(15, 200)]
     a = [r['impl'] for r in batch.run(fp_cases, want_spec=False)]
     b = [r['impl'] for r in batch.run([dict(c, file_path_option=c['sources'][0]['key']) for c in fp_cases], want_spec=False)]
+    # ... whatever vocabulary the mapping names its logical table in: an R2RML mapping (rr:logicalTable / rr:tableName) over the file of file_path
+    r2 = [c for c in fp_cases if c['sources'][0].get('kind', 'csv') == 'csv' and not c.get('execs') and not family.triggers(c)]
+    r2_out = [r['impl'] for r in batch.run([dict(c, file_path_option=c['sources'][0]['key']) for c in r2], want_spec=False, style_fn=lambda c_: mapcase.Style(vocab='r2rml'))]
+    r2_ref = {json.dumps(c, sort_keys=True, ensure_ascii=False): x for c, x in zip(fp_cases, a)}
+    for c, y in zip(r2, r2_out):
+        res.evaluations += 1
+        res.count('file_path:r2rml')
+        x = r2_ref[json.dumps(c, sort_keys=True, ensure_ascii=False)]
+        if not family.same(x, y):
+            res.violations.append({'key': None, 'sig': 'file_path:r2rml', 'what': 'an R2RML mapping (rr:tableName) over the file named by file_path gives %s, the RML mapping naming the file itself gives %s'
+                                   % (str(y)[:200], str(x)[:200]), 'replay': {'case': c}})
     for c, x, y in zip(fp_cases, a, b):
         res.evaluations += 1
         if not family.same(x, y):
